@@ -21,8 +21,8 @@ CONFIG = {
     "quick": {"flavours": ["real", "complex"], "shards": 8, "examples": 100, "min_nontrivial": 40, "budget_s": 110},
     "thorough": {"flavours": ["real", "complex"], "shards": 16, "examples": 1200, "min_nontrivial": 800, "budget_s": 3300},
 }
-REQUIRED_CLASSES = {"quick": ["eps=0", "some-discarded", "all-retained", "tight-bound", "retruncated-with-smaller-eps"],
-                    "thorough": ["eps=0", "some-discarded", "all-retained", "tight-bound", "retruncated-with-smaller-eps"]}
+REQUIRED_CLASSES = {"quick": ["eps=0", "some-discarded", "all-retained", "tight-bound", "retruncated-with-smaller-eps", "truncated-offdiag-susc"],
+                    "thorough": ["eps=0", "some-discarded", "all-retained", "tight-bound", "retruncated-with-smaller-eps", "truncated-offdiag-susc"]}
 
 
 @st.composite
@@ -36,7 +36,7 @@ def strategy_(draw, tier):
     ix = st.integers(0, N - 1)
     comps = draw(st.lists(st.tuples(ix, ix, ix, ix), min_size=1, max_size=2, unique=True))
     triples = draw(st.lists(gen.triple_st(-3, 3), min_size=1, max_size=2, unique_by=tuple))
-    susc = draw(st.lists(st.tuples(ix, ix, ix, ix), min_size=1, max_size=2, unique=True))
+    susc = draw(st.lists(gen.susc_quad_st(N), min_size=1, max_size=3, unique=True))
     return {"model": mdl, "eps": eps, "earlier": earlier, "comps": [list(c) for c in comps], "triples": triples, "susc": [list(c) for c in susc]}
 
 
@@ -153,6 +153,8 @@ def execute(case, ctx):
             r = cmp(x, y, bound, "chi_{%d%d,%d%d}(n=%d)" % (a_, b_, c_, d_, n), "trunc-susc")
             if r:
                 return r
+            if ndisc and a_ != b_ and abs(x) > 1e-6:
+                classes.append("truncated-offdiag-susc")
     if tight:
         classes.append("tight-bound")
     nontrivial = (0 < ndisc < len(ret) and tight) or (zero and U.q("states")["nblocks"] > 1)
